@@ -2,7 +2,7 @@
 Helper lemmas for C06, reader part: reading the tokens of a written datum (`Syn.toks`) yields the
 datum it denotes (`Syn.denote`) and leaves the rest of the token stream untouched.
 -/
-import RuschmSpec.Text
+import RuschmProofs.TextLemmas
 namespace Ruschm.Text
 open Ruschm Ruschm.Read
 
@@ -88,5 +88,519 @@ theorem denoteL_append (pre xs : List Syn) (tl : Datum) :
   induction pre with
   | nil => rfl
   | cons x pre ih => simp [Syn.denoteL, ih]
+
+/-- what reading leaves behind: the tokens after the datum, the pending lexer error unchanged -/
+def Leaves (s s' : PState) (lrest : List LToken) : Prop :=
+  s'.toks = lrest ∧ s'.lexErr = s.lexErr
+
+/-- `current_datum` reads `x`: the first token of `x` is the current one, the others follow -/
+def CurSpec (x : Syn) : Prop :=
+  ∀ (fuel : Nat) (s : PState) (lt0 : LToken) (lmore lrest : List LToken),
+    x.need ≤ fuel → (lt0 :: lmore).map (·.tok) = x.toks → s.cur = some lt0 →
+    s.toks = lmore ++ lrest →
+    ∃ d s', currentDatum fuel s = .ok (some d, s') ∧ d.strip = x.denote ∧ Leaves s s' lrest
+
+/-- `datum` (the restricted reader inside quotes and vectors) reads `x` -/
+def DatSpec (x : Syn) : Prop :=
+  ∀ (fuel : Nat) (s : PState) (lt0 : LToken) (lmore lrest : List LToken),
+    x.need ≤ fuel → (lt0 :: lmore).map (·.tok) = x.toks → s.cur = some lt0 →
+    s.toks = lmore ++ lrest →
+    ∃ d s', datum fuel s = .ok (d, s') ∧ d.strip = x.denote ∧ Leaves s s' lrest
+
+def tailToks : Option Syn → List Token
+  | none => [.rparen]
+  | some t => .period :: (t.toks ++ [.rparen])
+
+def tailDen : Option Syn → Datum
+  | none => .nil none
+  | some t => t.denote
+
+def tailNeed : Option Syn → Nat
+  | none => 1
+  | some t => t.need + 2
+
+theorem map_tok_append {lts : List LToken} {a b : List Token}
+    (h : lts.map (·.tok) = a ++ b) :
+    ∃ la lb, lts = la ++ lb ∧ la.map (·.tok) = a ∧ lb.map (·.tok) = b := by
+  obtain ⟨la, lb, h1, h2, h3⟩ := List.map_eq_append_iff.mp h
+  exact ⟨la, lb, h1, h2, h3⟩
+
+theorem map_tok_cons {lts : List LToken} {a : Token} {b : List Token}
+    (h : lts.map (·.tok) = a :: b) :
+    ∃ la lb, lts = la :: lb ∧ la.tok = a ∧ lb.map (·.tok) = b := by
+  cases lts with
+  | nil => simp at h
+  | cons x r => simp at h; exact ⟨x, r, rfl, h.1, h.2⟩
+
+theorem listLoop_elem {f : Nat} {s s2 : PState} {t : LToken} {rest : List LToken} {loc : Loc}
+    {acc e : Datum} {dot : Bool} (hstart : Syn.isStartTok t.tok = true) (hs : s.toks = t :: rest)
+    (hc : currentDatum f { s with toks := rest, cur := some t, loc := t.loc } = .ok (some e, s2)) :
+    listLoop (f + 1) s loc acc dot =
+      match acc with
+      | .pair _ _ _ =>
+        if dot then do
+          let (t2, s) ← advanceUnwrap s2
+          if t2.tok = .rparen then pure ((setTail acc e).withLoc loc, s)
+          else .error (.syntax, s.loc)
+        else listLoop f s2 loc (snoc acc e) dot
+      | _ => listLoop f s2 loc (.pair e (.nil none) none) dot := by
+  rw [listLoop, advanceUnwrap_cons hs]
+  cases htok : t.tok <;> simp_all [Syn.isStartTok, bind, Except.bind] <;>
+    (cases acc <;> cases dot <;> simp)
+
+/-- the loop of `current_list_or_pair` -/
+theorem listLoop_spec (xs : List Syn) (hxs : ∀ x ∈ xs, Syn.Supported x ∧ CurSpec x)
+    (tail : Option Syn) (htail : ∀ t, tail = some t → Syn.Supported t ∧ CurSpec t) :
+    ∀ (fuel : Nat) (s : PState) (lts lrest : List LToken) (loc : Loc) (acc : Datum)
+      (pre : List Syn),
+      Syn.needSum xs + tailNeed tail ≤ fuel →
+      lts.map (·.tok) = Syn.toksL xs ++ tailToks tail → s.toks = lts ++ lrest →
+      acc.strip = Syn.denoteL pre (.nil none) → (tail.isSome = true → pre ++ xs ≠ []) →
+      ∃ d s', listLoop fuel s loc acc false = .ok (d, s') ∧
+        d.strip = Syn.denoteL (pre ++ xs) (tailDen tail) ∧ Leaves s s' lrest := by
+  induction xs with
+  | nil =>
+    intro fuel s lts lrest loc acc pre hfuel hlts hs hacc hne
+    cases tail with
+    | none =>
+      simp only [Syn.toksL, tailToks, List.nil_append] at hlts
+      obtain ⟨lt, lb, rfl, h1, h2⟩ := map_tok_cons hlts
+      simp only [List.map_eq_nil_iff] at h2; subst h2
+      cases fuel with
+      | zero => simp [tailNeed] at hfuel
+      | succ fuel =>
+        refine ⟨acc.withLoc loc, { s with toks := lrest, cur := some lt, loc := lt.loc }, ?_, ?_,
+          rfl, rfl⟩
+        · rw [listLoop, advanceUnwrap_cons hs]
+          simp [bind, Except.bind, h1, pure, Except.pure]
+        · simp [strip_withLoc, hacc, tailDen]
+    | some t =>
+      obtain ⟨ht, hct⟩ := htail t rfl
+      simp only [Syn.toksL, tailToks, List.nil_append] at hlts
+      obtain ⟨lp, lr, rfl, hp, hlr⟩ := map_tok_cons hlts
+      obtain ⟨lt, lb, rfl, hlt, hlb⟩ := map_tok_append hlr
+      obtain ⟨lrp, lb', rfl, hrp, hnil⟩ := map_tok_cons hlb
+      simp only [List.map_eq_nil_iff] at hnil; subst hnil
+      obtain ⟨t0, more, htoks, hstart⟩ := Syn.toks_head t ht
+      rw [htoks] at hlt
+      obtain ⟨lt0, lmore, rfl, h0, hmore⟩ := map_tok_cons hlt
+      simp only [Syn.needSum, tailNeed, Nat.zero_add] at hfuel
+      obtain ⟨f, rfl⟩ : ∃ f, fuel = f + 2 := ⟨fuel - 2, by omega⟩
+      -- the period
+      have hs1 : s.toks = lp :: (lt0 :: (lmore ++ (lrp :: lrest))) := by simp [hs]
+      rw [listLoop, advanceUnwrap_cons hs1]
+      simp only [bind, Except.bind, hp, Bool.false_eq_true, if_false]
+      -- the tail
+      let s1 : PState :=
+        { s with toks := lt0 :: (lmore ++ (lrp :: lrest)), cur := some lp, loc := lp.loc }
+      obtain ⟨e, s2, hc, he, hl2, hl2'⟩ := hct f
+        { s1 with toks := lmore ++ (lrp :: lrest), cur := some lt0, loc := lt0.loc }
+        lt0 lmore (lrp :: lrest) (by omega) (by simp [h0, hmore, htoks]) rfl rfl
+      have := listLoop_elem (s := s1) (loc := loc) (acc := acc) (dot := true)
+        (by rw [h0]; exact hstart) rfl hc
+      rw [this]
+      have hpre : pre ≠ [] := by simpa using hne rfl
+      cases acc with
+      | pair a d l =>
+        simp only [if_true]
+        rw [advanceUnwrap_cons hl2]
+        refine ⟨(setTail (.pair a d l) e).withLoc loc,
+          { s2 with toks := lrest, cur := some lrp, loc := lrp.loc }, ?_, ?_, rfl, ?_⟩
+        · simp [bind, Except.bind, hrp, pure, Except.pure]
+        · rw [strip_withLoc, strip_setTail, hacc, he, setTail_denoteL]
+          simp [tailDen]
+        · exact hl2'
+      | _ =>
+        exfalso
+        cases pre with
+        | nil => exact hpre rfl
+        | cons y pre => simp [Datum.strip, Syn.denoteL] at hacc
+  | cons x xs ih =>
+    intro fuel s lts lrest loc acc pre hfuel hlts hs hacc hne
+    obtain ⟨hx, hcx⟩ := hxs x (by simp)
+    simp only [Syn.toksL, List.append_assoc] at hlts
+    obtain ⟨lx, lr, rfl, hlx, hlr⟩ := map_tok_append hlts
+    obtain ⟨t0, more, htoks, hstart⟩ := Syn.toks_head x hx
+    rw [htoks] at hlx
+    obtain ⟨lt0, lmore, rfl, h0, hmore⟩ := map_tok_cons hlx
+    simp only [Syn.needSum] at hfuel
+    obtain ⟨f, rfl⟩ : ∃ f, fuel = f + 1 := ⟨fuel - 1, by omega⟩
+    have hs1 : s.toks = lt0 :: (lmore ++ (lr ++ lrest)) := by simp [hs]
+    obtain ⟨e, s2, hc, he, hl2, hl2'⟩ := hcx f
+      { s with toks := lmore ++ (lr ++ lrest), cur := some lt0, loc := lt0.loc }
+      lt0 lmore (lr ++ lrest) (by omega) (by simp [h0, hmore, htoks]) rfl rfl
+    rw [listLoop_elem (by rw [h0]; exact hstart) hs1 hc]
+    have finish : ∀ acc' : Datum, acc'.strip = snoc acc.strip e.strip →
+        ∃ d s', listLoop f s2 loc acc' false = .ok (d, s') ∧
+          d.strip = Syn.denoteL (pre ++ x :: xs) (tailDen tail) ∧ Leaves s s' lrest := by
+      intro acc' hk2
+      obtain ⟨d, s', g1, g2, g3, g4⟩ := ih (fun y hy => hxs y (by simp [hy])) f s2 lr lrest loc
+        acc' (pre ++ [x]) (by omega) hlr hl2
+        (by rw [hk2, hacc, he, snoc_denoteL, denoteL_append]; rfl) (by simp)
+      refine ⟨d, s', g1, ?_, g3, ?_⟩
+      · rw [g2]; simp
+      · rw [g4, hl2']
+    cases acc with
+    | pair a d l =>
+      simp only [Bool.false_eq_true, if_false]
+      exact finish _ (strip_snoc _ _)
+    | _ => exact finish _ (by simp [Datum.strip, snoc])
+
+theorem ne_rparen_of_start {t : Token} (h : Syn.isStartTok t = true) : t ≠ .rparen := by
+  rintro rfl; cases h
+
+/-- `repeat(Self::datum)`: the elements of a vector up to the closing parenthesis -/
+theorem repeatDatum_spec (xs : List Syn) (hxs : ∀ x ∈ xs, Syn.Supported x ∧ DatSpec x) :
+    ∀ (fuel : Nat) (s : PState) (lts lrest : List LToken) (acc : List Datum),
+      Syn.needSum xs + 1 ≤ fuel →
+      lts.map (·.tok) = Syn.toksL xs ++ [.rparen] → s.toks = lts ++ lrest →
+      ∃ ds s', repeatDatum fuel s acc = .ok (acc.reverse ++ ds, s') ∧
+        Datum.stripList ds = Syn.denoteV xs ∧ Leaves s s' lrest := by
+  induction xs with
+  | nil =>
+    intro fuel s lts lrest acc hfuel hlts hs
+    simp only [Syn.toksL, List.nil_append] at hlts
+    obtain ⟨lrp, lb, rfl, hrp, hnil⟩ := map_tok_cons hlts
+    simp only [List.map_eq_nil_iff] at hnil; subst hnil
+    obtain ⟨f, rfl⟩ : ∃ f, fuel = f + 1 := ⟨fuel - 1, by omega⟩
+    have hs1 : s.toks = lrp :: lrest := by simp [hs]
+    refine ⟨[], { s with toks := lrest, cur := some lrp, loc := lrp.loc }, ?_, rfl, rfl, rfl⟩
+    rw [repeatDatum, peek_cons hs1]
+    simp [bind, Except.bind, hrp, advance_cons hs1, pure, Except.pure]
+  | cons x xs ih =>
+    intro fuel s lts lrest acc hfuel hlts hs
+    obtain ⟨hx, hdx⟩ := hxs x (by simp)
+    simp only [Syn.toksL, List.append_assoc] at hlts
+    obtain ⟨lx, lr, rfl, hlx, hlr⟩ := map_tok_append hlts
+    obtain ⟨t0, more, htoks, hstart⟩ := Syn.toks_head x hx
+    rw [htoks] at hlx
+    obtain ⟨lt0, lmore, rfl, h0, hmore⟩ := map_tok_cons hlx
+    simp only [Syn.needSum] at hfuel
+    obtain ⟨f, rfl⟩ : ∃ f, fuel = f + 1 := ⟨fuel - 1, by omega⟩
+    have hs1 : s.toks = lt0 :: (lmore ++ (lr ++ lrest)) := by simp [hs]
+    obtain ⟨d, s2, hc, hd, hl2, hl2'⟩ := hdx f
+      { s with toks := lmore ++ (lr ++ lrest), cur := some lt0, loc := lt0.loc }
+      lt0 lmore (lr ++ lrest) (by omega) (by simp [h0, hmore, htoks]) rfl rfl
+    obtain ⟨ds, s', g1, g2, g3, g4⟩ := ih (fun y hy => hxs y (by simp [hy])) f s2 lr lrest
+      (d :: acc) (by omega) hlr hl2
+    refine ⟨d :: ds, s', ?_, ?_, g3, ?_⟩
+    · rw [repeatDatum, peek_cons hs1]
+      have : lt0.tok ≠ .rparen := by rw [h0]; exact ne_rparen_of_start hstart
+      simp [bind, Except.bind, this, advance_cons hs1, hc, g1]
+    · simp [Datum.stripList, hd, g2, Syn.denoteV]
+    · rw [g4, hl2']
+
+/-! ### the datum readers, constructor by constructor -/
+
+theorem spec_atom (t : Token) (h : Syn.Supported (.atom t)) :
+    CurSpec (.atom t) ∧ DatSpec (.atom t) := by
+  have hat := h.1
+  constructor
+  · intro fuel s lt0 lmore lrest hfuel hmap hcur hs
+    simp only [Syn.toks, List.map_cons, List.cons.injEq, List.map_eq_nil_iff] at hmap
+    obtain ⟨h0, rfl⟩ := hmap
+    obtain ⟨f, rfl⟩ : ∃ f, fuel = f + 1 := ⟨fuel - 1, by simp [Syn.need] at hfuel; omega⟩
+    rw [currentDatum, hcur]
+    cases t <;> simp_all [Syn.isAtomTok, Syn.denote, Datum.strip, Leaves] <;>
+      exact ⟨_, _, ⟨rfl, rfl⟩, rfl, by first | rfl | exact hs, rfl⟩
+  · intro fuel s lt0 lmore lrest hfuel hmap hcur hs
+    simp only [Syn.toks, List.map_cons, List.cons.injEq, List.map_eq_nil_iff] at hmap
+    obtain ⟨h0, rfl⟩ := hmap
+    obtain ⟨f, rfl⟩ : ∃ f, fuel = f + 1 := ⟨fuel - 1, by simp [Syn.need] at hfuel; omega⟩
+    rw [datum, hcur]
+    cases t <;> simp_all [Syn.isAtomTok, Syn.denote, Datum.strip, Leaves] <;>
+      exact ⟨_, _, ⟨rfl, rfl⟩, rfl, by first | rfl | exact hs, rfl⟩
+
+/-- both readers on a parenthesised list, proper (`tail = none`) or dotted -/
+theorem spec_listlike (x : Syn) (xs : List Syn) (tail : Option Syn)
+    (htoks : x.toks = .lparen :: (Syn.toksL xs ++ tailToks tail))
+    (hneed : Syn.needSum xs + tailNeed tail + 1 ≤ x.need)
+    (hden : x.denote = Syn.denoteL xs (tailDen tail))
+    (hxs : ∀ y ∈ xs, Syn.Supported y ∧ CurSpec y)
+    (htail : ∀ t, tail = some t → Syn.Supported t ∧ CurSpec t)
+    (hne : tail.isSome = true → xs ≠ []) :
+    CurSpec x ∧ DatSpec x := by
+  constructor
+  · intro fuel s lt0 lmore lrest hfuel hmap hcur hs
+    rw [htoks] at hmap
+    simp only [List.map_cons, List.cons.injEq] at hmap
+    obtain ⟨h0, hmore⟩ := hmap
+    obtain ⟨f, rfl⟩ : ∃ f, fuel = f + 1 := ⟨fuel - 1, by omega⟩
+    obtain ⟨d, s', g1, g2, g3, g4⟩ := listLoop_spec xs hxs tail htail f
+      { s with cur := none } lmore lrest s.loc (.nil none) [] (by omega) hmore hs rfl
+      (by simpa using hne)
+    refine ⟨d, s', ?_, by rw [g2, hden]; rfl, g3, g4⟩
+    rw [currentDatum, hcur]
+    simp [h0, listOrPair, g1, bind, Except.bind, pure, Except.pure]
+  · intro fuel s lt0 lmore lrest hfuel hmap hcur hs
+    rw [htoks] at hmap
+    simp only [List.map_cons, List.cons.injEq] at hmap
+    obtain ⟨h0, hmore⟩ := hmap
+    obtain ⟨f, rfl⟩ : ∃ f, fuel = f + 1 := ⟨fuel - 1, by omega⟩
+    obtain ⟨d, s', g1, g2, g3, g4⟩ := listLoop_spec xs hxs tail htail f
+      s lmore lrest s.loc (.nil none) [] (by omega) hmore hs rfl (by simpa using hne)
+    refine ⟨d, s', ?_, by rw [g2, hden]; rfl, g3, g4⟩
+    rw [datum, hcur]
+    simp [h0, listOrPair, g1]
+
+theorem spec_vec (xs : List Syn) (hxs : ∀ y ∈ xs, Syn.Supported y ∧ DatSpec y) :
+    CurSpec (.vec xs) ∧ DatSpec (.vec xs) := by
+  constructor
+  · intro fuel s lt0 lmore lrest hfuel hmap hcur hs
+    simp only [Syn.toks, List.map_cons, List.cons.injEq] at hmap
+    obtain ⟨h0, hmore⟩ := hmap
+    simp only [Syn.need] at hfuel
+    obtain ⟨f, rfl⟩ : ∃ f, fuel = f + 1 := ⟨fuel - 1, by omega⟩
+    obtain ⟨ds, s', g1, g2, g3, g4⟩ := repeatDatum_spec xs hxs f
+      { s with cur := none } lmore lrest [] (by omega) hmore hs
+    refine ⟨.vec ds s'.loc, s', ?_, by simp [Datum.strip, g2, Syn.denote], g3, g4⟩
+    rw [currentDatum, hcur]
+    simp [h0, g1, bind, Except.bind, pure, Except.pure]
+  · intro fuel s lt0 lmore lrest hfuel hmap hcur hs
+    simp only [Syn.toks, List.map_cons, List.cons.injEq] at hmap
+    obtain ⟨h0, hmore⟩ := hmap
+    simp only [Syn.need] at hfuel
+    obtain ⟨f, rfl⟩ : ∃ f, fuel = f + 1 := ⟨fuel - 1, by omega⟩
+    obtain ⟨ds, s', g1, g2, g3, g4⟩ := repeatDatum_spec xs hxs f
+      s lmore lrest [] (by omega) hmore hs
+    refine ⟨.vec ds s.loc, s', ?_, by simp [Datum.strip, g2, Syn.denote], g3, g4⟩
+    rw [datum, hcur]
+    simp [h0, g1, bind, Except.bind, pure, Except.pure]
+
+theorem spec_quote (x : Syn) (hx : Syn.Supported x) (hdx : DatSpec x) :
+    CurSpec (.quote x) ∧ DatSpec (.quote x) := by
+  obtain ⟨t1, more, htoks, -⟩ := Syn.toks_head x hx
+  constructor
+  · intro fuel s lt0 lmore lrest hfuel hmap hcur hs
+    simp only [Syn.toks, List.map_cons, List.cons.injEq] at hmap
+    obtain ⟨h0, hmore⟩ := hmap
+    rw [htoks] at hmore
+    obtain ⟨lt1, lmore', rfl, h1, hmore'⟩ := map_tok_cons hmore
+    simp only [Syn.need] at hfuel
+    obtain ⟨f, rfl⟩ : ∃ f, fuel = f + 2 := ⟨fuel - 2, by omega⟩
+    have hs1 : ({ s with cur := none } : PState).toks = lt1 :: (lmore' ++ lrest) := by simp [hs]
+    obtain ⟨d, s', g1, g2, g3, g4⟩ := hdx f
+      { s with toks := lmore' ++ lrest, cur := some lt1, loc := lt1.loc }
+      lt1 lmore' lrest (by omega) (by simp [h1, hmore', htoks]) rfl rfl
+    refine ⟨mkQuote lt1.loc d, s', ?_, by simp [mkQuote, Datum.strip, g2, Syn.denote], g3, g4⟩
+    rw [currentDatum, hcur]
+    simp only [h0]
+    rw [advance_cons hs1]
+    simp only [bind, Except.bind, parseQuoted]
+    rw [g1]
+    rfl
+  · intro fuel s lt0 lmore lrest hfuel hmap hcur hs
+    simp only [Syn.toks, List.map_cons, List.cons.injEq] at hmap
+    obtain ⟨h0, hmore⟩ := hmap
+    rw [htoks] at hmore
+    obtain ⟨lt1, lmore', rfl, h1, hmore'⟩ := map_tok_cons hmore
+    simp only [Syn.need] at hfuel
+    obtain ⟨f, rfl⟩ : ∃ f, fuel = f + 2 := ⟨fuel - 2, by omega⟩
+    have hs1 : s.toks = lt1 :: (lmore' ++ lrest) := by simp [hs]
+    obtain ⟨d, s', g1, g2, g3, g4⟩ := hdx f
+      { s with toks := lmore' ++ lrest, cur := some lt1, loc := lt1.loc }
+      lt1 lmore' lrest (by omega) (by simp [h1, hmore', htoks]) rfl rfl
+    refine ⟨mkQuote lt1.loc d, s', ?_, by simp [mkQuote, Datum.strip, g2, Syn.denote], g3, g4⟩
+    rw [datum, hcur]
+    simp only [h0]
+    rw [advance_cons hs1]
+    simp only [bind, Except.bind, parseQuoted]
+    rw [g1]
+    rfl
+
+mutual
+/-- both readers are correct on every supported written datum -/
+theorem spec_all : (x : Syn) → Syn.Supported x → CurSpec x ∧ DatSpec x
+  | .atom t, h => spec_atom t h
+  | .list xs, h => by
+    have hl := spec_allL xs (by simpa [Syn.Supported] using h)
+    exact spec_listlike (.list xs) xs none rfl (by simp [Syn.need, tailNeed]) rfl
+      (fun y hy => ⟨(hl y hy).1, (hl y hy).2.1⟩) (by simp) (by simp)
+  | .dotted xs t, h => by
+    simp only [Syn.Supported] at h
+    have hl := spec_allL xs h.2.1
+    have ht := spec_all t h.2.2
+    refine spec_listlike (.dotted xs t) xs (some t) rfl (by simp [Syn.need, tailNeed]; omega) rfl
+      (fun y hy => ⟨(hl y hy).1, (hl y hy).2.1⟩) ?_ (fun _ => h.1)
+    intro t' e; cases e; exact ⟨h.2.2, ht.1⟩
+  | .vec xs, h => by
+    have hl := spec_allL xs (by simpa [Syn.Supported] using h)
+    exact spec_vec xs (fun y hy => ⟨(hl y hy).1, (hl y hy).2.2⟩)
+  | .quote x, h => by
+    have hx : Syn.Supported x := by simpa [Syn.Supported] using h
+    exact spec_quote x hx (spec_all x hx).2
+theorem spec_allL : (xs : List Syn) → Syn.SupportedL xs →
+    ∀ y ∈ xs, Syn.Supported y ∧ CurSpec y ∧ DatSpec y
+  | [], _ => by simp
+  | x :: xs, h => by
+    simp only [Syn.SupportedL] at h
+    intro y hy
+    rcases List.mem_cons.mp hy with e | hy
+    · rw [e]; exact ⟨h.1, spec_all x h.1⟩
+    · exact spec_allL xs h.2 y hy
+end
+
+mutual
+theorem need_le : (x : Syn) → x.need + 1 ≤ 2 * x.toks.length
+  | .atom t => by simp [Syn.need, Syn.toks]
+  | .list xs => by
+    have := needSum_le xs
+    simp only [Syn.need, Syn.toks, List.length_cons, List.length_append, List.length_nil]; omega
+  | .dotted xs t => by
+    have := needSum_le xs
+    have := need_le t
+    simp only [Syn.need, Syn.toks, List.length_cons, List.length_append, List.length_nil]; omega
+  | .vec xs => by
+    have := needSum_le xs
+    simp only [Syn.need, Syn.toks, List.length_cons, List.length_append, List.length_nil]; omega
+  | .quote x => by
+    have := need_le x
+    simp only [Syn.need, Syn.toks, List.length_cons]; omega
+theorem needSum_le : (xs : List Syn) → Syn.needSum xs ≤ 2 * (Syn.toksL xs).length
+  | [] => by simp [Syn.needSum]
+  | x :: xs => by
+    have := need_le x
+    have := needSum_le xs
+    simp only [Syn.needSum, Syn.toksL, List.length_append]; omega
+end
+
+mutual
+theorem toks_supported : (x : Syn) → Syn.Supported x → ∀ t ∈ x.toks, SupportedTok t
+  | .atom t, h => by
+    intro t' ht'; simp only [Syn.toks, List.mem_singleton] at ht'; subst ht'; exact h.2
+  | .list xs, h => by
+    have := toksL_supported xs (by simpa [Syn.Supported] using h)
+    intro t ht
+    simp only [Syn.toks, List.mem_cons, List.mem_append, List.not_mem_nil, or_false] at ht
+    rcases ht with rfl | ht | rfl
+    · trivial
+    · exact this t ht
+    · trivial
+  | .dotted xs tl, h => by
+    simp only [Syn.Supported] at h
+    have h1 := toksL_supported xs h.2.1
+    have h2 := toks_supported tl h.2.2
+    intro t ht
+    simp only [Syn.toks, List.mem_cons, List.mem_append, List.not_mem_nil, or_false] at ht
+    rcases ht with rfl | ht | rfl | ht | rfl
+    · trivial
+    · exact h1 t ht
+    · trivial
+    · exact h2 t ht
+    · trivial
+  | .vec xs, h => by
+    have := toksL_supported xs (by simpa [Syn.Supported] using h)
+    intro t ht
+    simp only [Syn.toks, List.mem_cons, List.mem_append, List.not_mem_nil, or_false] at ht
+    rcases ht with rfl | ht | rfl
+    · trivial
+    · exact this t ht
+    · trivial
+  | .quote x, h => by
+    have := toks_supported x (by simpa [Syn.Supported] using h)
+    intro t ht
+    simp only [Syn.toks, List.mem_cons] at ht
+    rcases ht with rfl | ht
+    · trivial
+    · exact this t ht
+theorem toksL_supported : (xs : List Syn) → Syn.SupportedL xs → ∀ t ∈ Syn.toksL xs, SupportedTok t
+  | [], _ => by simp [Syn.toksL]
+  | x :: xs, h => by
+    simp only [Syn.SupportedL] at h
+    have h1 := toks_supported x h.1
+    have h2 := toksL_supported xs h.2
+    intro t ht
+    simp only [Syn.toksL, List.mem_append] at ht
+    rcases ht with ht | ht
+    · exact h1 t ht
+    · exact h2 t ht
+end
+
+theorem stripList_eq_map (ds : List Datum) : Datum.stripList ds = ds.map Datum.strip := by
+  induction ds with
+  | nil => rfl
+  | cons d ds ih => simp [Datum.stripList, ih]
+
+theorem denoteV_eq_map (xs : List Syn) : Syn.denoteV xs = xs.map Syn.denote := by
+  induction xs with
+  | nil => rfl
+  | cons d ds ih => simp [Syn.denoteV, ih]
+
+/-- READ_TOKENS: one call of the reader on `toks x ++ rest` yields `x` and leaves `rest` -/
+theorem nextDatum_spec (x : Syn) (hx : Syn.Supported x) (s : PState) (lts lrest : List LToken)
+    (hl : lts.map (·.tok) = x.toks) (hs : s.toks = lts ++ lrest) :
+    ∃ d s', nextDatum s = .ok (some d, s') ∧ d.strip = x.denote ∧ s'.toks = lrest ∧
+      s'.lexErr = s.lexErr := by
+  obtain ⟨t0, more, htoks, -⟩ := Syn.toks_head x hx
+  rw [htoks] at hl
+  obtain ⟨lt0, lmore, rfl, h0, hmore⟩ := map_tok_cons hl
+  have hs1 : s.toks = lt0 :: (lmore ++ lrest) := by simp [hs]
+  have hlen := need_le x
+  have hlen' : x.toks.length = lmore.length + 1 := by
+    rw [htoks, ← hmore]; simp
+  obtain ⟨d, s', g1, g2, g3, g4⟩ := (spec_all x hx).1
+    (fuelFor { s with toks := lmore ++ lrest, cur := some lt0, loc := lt0.loc })
+    { s with toks := lmore ++ lrest, cur := some lt0, loc := lt0.loc } lt0 lmore lrest
+    (by simp only [fuelFor, List.length_append]; omega) (by simp [h0, hmore, htoks]) rfl rfl
+  refine ⟨d, s', ?_, g2, g3, g4⟩
+  simp only [nextDatum, advance_cons hs1, bind, Except.bind]
+  exact g1
+
+theorem nextDatum_end (s : PState) (h : s.toks = []) (he : s.lexErr = none) :
+    ∃ s', nextDatum s = .ok (none, s') := by
+  simp [nextDatum, advance, h, he, bind, Except.bind, fuelFor, currentDatum]
+
+theorem allAux_spec (xs : List Syn) (hxs : Syn.SupportedL xs) :
+    ∀ (fuel : Nat) (s : PState) (acc : List Datum), xs.length < fuel →
+      s.toks.map (·.tok) = Syn.toksL xs → s.lexErr = none →
+      ∃ ds, Read.allAux fuel s acc = (acc.reverse ++ ds, none) ∧
+        ds.map Datum.strip = xs.map Syn.denote := by
+  induction xs with
+  | nil =>
+    intro fuel s acc hf hs he
+    obtain ⟨f, rfl⟩ : ∃ f, fuel = f + 1 := ⟨fuel - 1, by omega⟩
+    simp only [Syn.toksL, List.map_eq_nil_iff] at hs
+    obtain ⟨s', h⟩ := nextDatum_end s hs he
+    exact ⟨[], by simp [Read.allAux, h], rfl⟩
+  | cons x xs ih =>
+    intro fuel s acc hf hs he
+    obtain ⟨f, rfl⟩ : ∃ f, fuel = f + 1 := ⟨fuel - 1, by omega⟩
+    simp only [Syn.SupportedL] at hxs
+    simp only [Syn.toksL] at hs
+    obtain ⟨lx, lr, hsplit, hlx, hlr⟩ := map_tok_append hs
+    obtain ⟨d, s', g1, g2, g3, g4⟩ := nextDatum_spec x hxs.1 s lx lr hlx hsplit
+    obtain ⟨ds, k1, k2⟩ := ih hxs.2 f s' (d :: acc) (by simp at hf; omega) (by rw [g3]; exact hlr)
+      (by rw [g4, he])
+    refine ⟨d :: ds, ?_, by simp [g2, k2]⟩
+    simp [Read.allAux, g1, k1]
+
+theorem length_le_toksL (xs : List Syn) : xs.length ≤ (Syn.toksL xs).length := by
+  induction xs with
+  | nil => simp
+  | cons x xs ih =>
+    have := need_le x
+    simp only [Syn.toksL, List.length_cons, List.length_append]; omega
+
+/-- READ_RENDER for a sequence of top-level data -/
+theorem readAll_render (xs : List Syn) (hxs : Syn.SupportedL xs) (layout : List (List Char))
+    (hl : ValidLayout (Syn.toksL xs) layout) :
+    (Read.all (interleave (Syn.toksL xs) layout)).1.map Datum.strip = xs.map Syn.denote ∧
+      (Read.all (interleave (Syn.toksL xs) layout)).2 = none := by
+  obtain ⟨h1, h2⟩ := all_render (Syn.toksL xs) layout (toksL_supported xs hxs) hl
+  have hlen := length_le_toksL xs
+  generalize interleave (Syn.toksL xs) layout = cs at h1 h2 ⊢
+  cases hr : Lex.all cs with
+  | mk lts e =>
+    rw [hr] at h1 h2
+    simp only at h1 h2
+    subst h2
+    have hlen2 : lts.length = (Syn.toksL xs).length := by rw [← h1]; simp
+    obtain ⟨ds, k1, k2⟩ := allAux_spec xs hxs (lts.length + 1)
+      { toks := lts, lexErr := none } [] (by omega) h1 rfl
+    have : Read.all cs = ([] ++ ds, none) := by
+      simp only [Read.all, ofText, hr]
+      exact k1
+    rw [this]
+    exact ⟨by simpa using k2, rfl⟩
 
 end Ruschm.Text
